@@ -2173,7 +2173,14 @@ def run(cfg: dict[str, Any], prop: str, rseed: int | None = None, ops: list[dict
             assert rseed is not None
             g = Gen(w, Rng(rseed))
             for _ in range(cfg["steps"]):
-                op = g.next_op()
+                try:
+                    op = g.next_op()
+                except SkipOp:
+                    # the generator met something it cannot describe (e.g. a library-internal node class that took over
+                    # an id at digest size 1): nothing was executed, draw the next op
+                    g.script = []
+                    w.stats.skipped += 1
+                    continue
                 w.step(op)
         else:
             for op in ops:
